@@ -359,3 +359,59 @@ Proof.
     + split; [subst cvs'; rewrite !body_width_app, !body_width_csides; lia|]. rewrite Es. exact I1.
   - cbn [acontent_from fill]. rewrite Es, I2, map_app. f_equal. subst cvs'. apply arows_frame; lia.
 Qed.
+
+(* ------------------------------------------------------------------ content rows are clean *)
+Lemma first_okb_app a b : a <> [] -> first_okb (a ++ b) = first_okb a.
+Proof. destruct a; [congruence|reflexivity]. Qed.
+Lemma last_okb_app a b : b <> [] -> last_okb (a ++ b) = last_okb b.
+Proof.
+  intros Hb. induction a as [|c a IH]; [reflexivity|]. cbn [app last_okb]. destruct (a ++ b) eqn:E.
+  - destruct a; [cbn in E; congruence|discriminate].
+  - exact IH.
+Qed.
+Lemma row_clean_app a b : a <> [] -> b <> [] -> row_cleanb a = true -> row_cleanb b = true -> row_cleanb (a ++ b) = true.
+Proof.
+  unfold row_cleanb. intros Ha Hb H1 H2. apply andb_prop in H1 as [A1 A2]. apply andb_prop in H2 as [B1 B2].
+  rewrite first_okb_app, last_okb_app by assumption. now rewrite A1, B2.
+Qed.
+
+Lemma arow_clean body k :
+  0 <= k -> body <> [] -> Forall acv_ok body -> Forall (fun a : acv => k < zlen (snd a)) body ->
+  arow body k <> [] /\ row_cleanb (arow body k) = true.
+Proof.
+  intros Hk. induction body as [|a body IH]; [congruence|]. intros _ Fo Fk. inversion Fo as [|? ? [Ha Hr] Fo']; subst. inversion Fk; subst.
+  unfold arow. cbn [flat_map]. fold (arow body k).
+  destruct (nthz_lt_some (snd a) k) as [r Hr']; [lia|]. rewrite Hr'.
+  assert (In r (snd a)) as Hin by (unfold nthz in Hr'; destruct (k <? 0); [discriminate|]; eapply nth_error_In; eauto).
+  rewrite Forall_forall in Hr. destruct (Hr _ Hin) as [Hz Hc].
+  assert (r <> []) as Hne by (intros ->; rewrite zlen_nil in Hz; lia).
+  destruct body as [|a' body'].
+  - cbn [arow flat_map]. rewrite app_nil_r. auto.
+  - destruct (IH ltac:(discriminate) Fo' H2) as [I1 I2]. split.
+    + destruct r; [congruence|discriminate].
+    + now apply row_clean_app.
+Qed.
+
+Lemma arows_clean body k m :
+  0 <= k -> body <> [] -> Forall acv_ok body -> Forall (fun a : acv => k + Z.of_nat m <= zlen (snd a)) body ->
+  Forall (fun r : row => row_cleanb r = true) (arows body k m).
+Proof.
+  revert k; induction m as [|m IH]; intros k Hk Hb Fo Fk; cbn [arows]; constructor.
+  - apply arow_clean; try assumption. eapply Forall_impl; [|exact Fk]. cbn beta; intros; lia.
+  - apply IH; try assumption; [lia|]. eapply Forall_impl; [|exact Fk]. cbn beta; intros; lia.
+Qed.
+
+Lemma AWF_clean w ss : 0 < w -> forall sl, AWF w ss sl -> Forall (fun r : row => row_cleanb r = true) (acontent_from ss sl).
+Proof.
+  intros Hw. induction ss as [|[n cvs] ss IH]; intros sl; cbn [AWF acontent_from]; [constructor|].
+  intros (Hn & _ & body & -> & Fo & Fn & Hbw & Hr). apply Forall_app; split; [|apply IH, Hr].
+  apply arows_clean; try assumption; [lia| |].
+  - intros ->. cbn in Hbw. lia.
+  - eapply Forall_impl; [|exact Fn]. cbn beta; intros; lia.
+Qed.
+
+Lemma content_clean s g : WF s -> content s = Ok g -> Forall (fun r : row => row_cleanb r = true) g.
+Proof.
+  intros W C. destruct (WF_elim _ W) as (Hc & _ & A & C'). rewrite C' in C. injection C as <-. eapply AWF_clean; eauto.
+Qed.
+
